@@ -95,6 +95,8 @@ class TrW(Tr):
                 return [], lit(n.value), "str"
             if isinstance(n.value, bool):
                 return [], "true" if n.value else "false", "bool"
+            if isinstance(n.value, int) and n.value >= 0:
+                return [], str(n.value), "nat"
             raise Unsupported(f"constant {n.value!r}")
         if isinstance(n, ast.Name):
             if n.id not in self.ty:
